@@ -1353,9 +1353,51 @@ impl PartialEq<XmlDeclarationAttList> for XmlDeclarationAttList {
 }
 
 impl fmt::Display for XmlDeclarationAttList {
-    fn fmt(&self, _f: &mut fmt::Formatter<'_>) -> Result<(), fmt::Error> {
-        // TODO:
-        Ok(())
+    fn fmt(&self, f: &mut fmt::Formatter<'_>) -> Result<(), fmt::Error> {
+        write!(f, "<!ATTLIST ")?;
+        if let Some(prefix) = self.prefix.as_deref() {
+            write!(f, "{}:", prefix)?;
+        }
+        write!(f, "{}", self.local_name.as_str())?;
+
+        for att in self.atts.as_slice() {
+            write!(f, " ")?;
+            if let Some(prefix) = att.prefix.as_deref() {
+                write!(f, "{}:", prefix)?;
+            }
+            write!(f, "{}", att.local_name.as_str())?;
+
+            match &att.ty {
+                XmlDeclarationAttType::CData => write!(f, " CDATA")?,
+                XmlDeclarationAttType::Entities => write!(f, " ENTITIES")?,
+                XmlDeclarationAttType::Entity => write!(f, " ENTITY")?,
+                XmlDeclarationAttType::Id => write!(f, " ID")?,
+                XmlDeclarationAttType::IdRef => write!(f, " IDREF")?,
+                XmlDeclarationAttType::IdRefs => write!(f, " IDREFS")?,
+                XmlDeclarationAttType::NmToken => write!(f, " NMTOKEN")?,
+                XmlDeclarationAttType::NmTokens => write!(f, " NMTOKENS")?,
+                XmlDeclarationAttType::Notation(v) => write!(f, " NOTATION ({})", v.join("|"))?,
+                XmlDeclarationAttType::Enumeration(v) => write!(f, " ({})", v.join("|"))?,
+            }
+
+            match &att.value {
+                XmlDeclarationAttDefault::Required => write!(f, " #REQUIRED")?,
+                XmlDeclarationAttDefault::Implied => write!(f, " #IMPLIED")?,
+                XmlDeclarationAttDefault::Value(fixed, values) => {
+                    if fixed.is_some() {
+                        write!(f, " #FIXED")?;
+                    }
+
+                    let mut value = String::new();
+                    for v in values.as_slice() {
+                        value.push_str(&format!("{}", v));
+                    }
+                    write!(f, " {}", escape(value.as_str()))?;
+                }
+            }
+        }
+
+        write!(f, ">")
     }
 }
 
